@@ -114,7 +114,13 @@ class V3MPM(MessageProcessingModel[V3EncodingResult, TV3SecModel]):
             security_model_id,
         )
 
-        if self.disco is not None:
+        if security_engine_id not in self.security_model.local_config:
+            # Only seed the timing data with what discovery told us. From
+            # then on the security model keeps it current (it advances with
+            # the local clock and is synchronised with authentic messages).
+            # Resetting it to the discovered values on every request would
+            # freeze the engine-time and drop out of the time-window of the
+            # remote engine 150 seconds after the discovery.
             self.security_model.set_engine_timing(
                 self.disco.authoritative_engine_id,
                 self.disco.authoritative_engine_boots,
